@@ -360,7 +360,8 @@ def shapes(tier):
     S = []
     def add(tag, **kw):
         kw['tag'] = tag; S.append(kw)
-    gens3 = [dict(ltab=1), dict(ltab=3, enthalpy=True, seq=True), dict(ltab=5, type='DELV', hg=True)]
+    # (the DELV well with |LTAB| = 5 has no table lines and is followed by another generator)
+    gens3 = [dict(ltab=1), dict(ltab=5, type='DELV', hg=True), dict(ltab=3, enthalpy=True, seq=True)]
     add('t2-whole', sections=ALL_T2, nrock=2, nad=[2, 0], nblocks=3, nincons=5, ntimes=9, nselec_lines=2, nselec=12,
         generators=gens3, meshmaker='xyz', print_block='block2', nincon_vars=3)   # block2 = 'AB1 7', held as 'AB107'
     add('aut-whole', autough2=True, sections=ALL_AUT, nrock=2, nad=[1, 2], nblocks=3, nincons=2, ntimes=8, generators=gens3, nincon_vars=4)
